@@ -24,3 +24,7 @@ def run(ctx, rep):
     more5.rule_gstrs_perm(mod, rep)
     from ..rules import misc
     misc.rule_refact_refresh(mod, rep)   # refact = YES is one of the option combinations of the expert driver
+    from ..rules import driver as _drv
+    _drv.rule_expert_order_cond(mod, rep)     # info = n+1 is a warning: the solve and the refinement are not skipped for it
+    from ..rules import more6
+    more6.rule_snode_ld(mod, rep)
